@@ -304,6 +304,30 @@ SeqFilter(n, P(_)) == LET RECURSIVE go(_, _)
                           go(i, acc) == IF i > n THEN acc ELSE go(i + 1, IF P(i) THEN Append(acc, i) ELSE acc)
                       IN go(1, <<>>)
 
+\* The same physical isotherm expressed in another pressure unit: pressures are multiplied by 10^-e10 and every
+\* parameter by 10^(e10 * PressurePower): the Henry slope (loading per pressure) scales with 10^e10, loadings,
+\* capacities and the clauses of the property do not change.  (Rationals stay small: the scaling is an exponent.)
+DScale10(d, k) == IF d[1] = 0 THEN d ELSE <<d[1], d[2] + k>>
+PressurePower(m) ==          \* exponent of 1/pressure in the dimension of each parameter (0 when absent)
+  CASE m \in {"Henry", "Langmuir", "TemkinApprox", "Toth", "Virial", "FHVST", "WVST", "GAB"} -> [K |-> 1]
+    [] m = "DSLangmuir" -> [K1 |-> 1, K2 |-> 1]
+    [] m = "TSLangmuir" -> [K1 |-> 1, K2 |-> 1, K3 |-> 1]
+    [] m = "BET" -> [C |-> 1, N |-> 1]
+    [] m = "Quadratic" -> [Ka |-> 1, Kb |-> 2]
+    [] m = "JensenSeaton" -> [K |-> 1, b |-> 1]
+    [] OTHER -> [none |-> 0]          \* Freundlich (irrational power), DR/DA (relative pressure only): not rescaled
+Rescalable(m) == m \notin {"Freundlich", "DR", "DA"}
+MagnitudeExps == {-6, -3, 3, 7}
+
+\* Whole-number arguments inside the domain of each function (integer-typed input must give what the float of
+\* equal value gives): pressures for loading(), loadings for pressure(); 0 is the zero point.
+Whole == <<0, 1, 2, 5, 10>>
+IntPressures(m, a) == SelectSeq(Whole, LAMBDA i : Valid(m, a, <<i, 1>>))
+IntLoadings(m, a) == SelectSeq(Whole, LAMBDA i :
+    CASE HasCap(m) -> RLt(<<i, 1>>, CapR(m, a))
+      [] m = "JensenSeaton" -> RLt(<<i, 1>>, a.a)            \* loading stays below a (1 + b p)
+      [] OTHER -> TRUE)
+
 \* concatenation of f[1] .. f[n]
 Flat(f, n) == LET RECURSIVE go(_, _)
                   go(i, acc) == IF i > n THEN acc ELSE go(i + 1, acc \o f[i])
@@ -315,7 +339,7 @@ MonoBad(idx, val(_)) == LET RECURSIVE go(_, _)
                                                          ELSE Append(acc, Bad("monotone", idx[j + 1])))
                         IN go(1, <<>>)
 
-ObsLoadingExplicit(m, a, pts, zero, hen) ==
+ObsLoadingExplicit(m, a, pts, zero, hen, e10) ==
   LET n == Len(pts)
       okv == SeqFilter(n, LAMBDA i : pts[i].st = 0)
       cap == IF HasCap(m) THEN DMul(DFromRat(CapR(m, a)), DOnePlus(6)) ELSE DZero
@@ -330,12 +354,12 @@ ObsLoadingExplicit(m, a, pts, zero, hen) ==
                ELSE (IF IsZero(zero.y) THEN <<>> ELSE <<Bad("zero_loading", 0)>>)
                     \o (IF IsZero(zero.z) THEN <<>> ELSE <<Bad("zero_pressure", 0)>>)
       henc == IF ~HasHenry(m) \/ hen.st # 0 THEN (IF hen.st \in {0, 1} THEN <<>> ELSE <<Bad("value", -1)>>)
-              ELSE IF DClose(hen.y, DMul(DFromRat(HenryR(m, a)), hen.x), DTol(4)) THEN <<>> ELSE <<Bad("henry", -1)>>
+              ELSE IF DClose(hen.y, DMul(DScale10(DFromRat(HenryR(m, a)), e10), hen.x), DTol(4)) THEN <<>> ELSE <<Bad("henry", -1)>>
   IN [bad |-> Flat(value, n) \o Flat(perpt, n) \o mono \o zeroc \o henc, prefix |-> n]
 
 \* pressure-explicit: the validity range is the prefix on which the closed form pressure(n) is
 \* positive and strictly increasing (before its turning point)
-ObsPressureExplicit(m, a, pts, zero, hen) ==
+ObsPressureExplicit(m, a, pts, zero, hen, e10) ==
   LET n == Len(pts)
       RECURSIVE pre(_)
       pre(i) == IF i > n THEN n
@@ -359,7 +383,7 @@ ObsPressureExplicit(m, a, pts, zero, hen) ==
                \o (IF zero.sm \notin {0, 1} THEN <<Bad("value", 0)>>
                    ELSE IF zero.sm = 0 /\ ~IsZero(zero.z) THEN <<Bad("zero_loading", 0)>> ELSE <<>>)
       \* Henry: x tiny loading, y = pressure(x): x ~ H y ; z = loading(p_small = hen.p): z ~ H p
-      H == DFromRat(HenryR(m, a))
+      H == DScale10(DFromRat(HenryR(m, a)), e10)
       henc == (IF hen.st # 0 THEN (IF hen.st = 1 THEN <<>> ELSE <<Bad("value_pressure", -1)>>)
                ELSE IF DClose(hen.x, DMul(H, hen.y), DTol(4)) THEN <<>> ELSE <<Bad("henry_pressure", -1)>>)
               \o (IF hen.sm # 0 THEN (IF hen.sm = 1 THEN <<>> ELSE <<Bad("value", -1)>>)
